@@ -396,6 +396,16 @@ func c02Worker(c *core.Collector, x *Ctx) {
 			}
 			q := append(append([]byte{}, p[:len(p)-1]...), r.Byte(), 0)
 			check(ref.Escape(c02Fix(q)), "bodylong", true)
+			// body longer than declared by exactly 1024 / 2048 / 1023 / 1025 bytes (the length field has 10 bits: comparisons done
+			// modulo 2^10, or on a masked value, accept some of these)
+			if k%8 == 0 {
+				for _, extra := range []int{1023, 1024, 1025, 2048, 3072} {
+					q := append([]byte{}, p[:len(p)-1]...)
+					q = append(q, r.Bytes(extra)...)
+					q = append(q, 0)
+					check(ref.Escape(c02Fix(q)), "bodylong-by-a-multiple-of-1024", true)
+				}
+			}
 			// toggling the fragment bit / version bit with checksum re-fixed (header completeness rules)
 			for _, bit := range []byte{0x20, 0x40} {
 				q := append([]byte{}, p...)
